@@ -1,9 +1,14 @@
 package main
 
 // C15: `knut infer` edits only the placeholder account.
-//   op C15.infer  input "<fixed|orig> <hex placeholder> <hex training> <hex target>"
+//   op C15.infer  input "<fixed|orig> <hex placeholder> <training> <hex target>"
 //     first field: the model variant; "fixed" = the code since /repo e8bd689 (the default and what checks/c15.py
 //     passes), "orig" = the code before it (only for replaying old findings)
+//     <training> = <hex of the training file>
+//                | tree:<hex path>=<hex content>,...   the training journal spread over an include tree (the
+//                  command reads it with ParseFileRecursively); the first entry is the file given to -t, paths are
+//                  relative to the training directory.  For a tree the repeated runs are made under schedule
+//                  perturbation (KNUT_VERIF_SCHED, GOMAXPROCS), so that the files reach the trainer in varying order.
 //     observed  "OK <hex stdout> ; <tree of stdout | REPARSE-ERR> ; <det|nondet>"   (exit 0)
 //               "ERR <hex stdout>" (exit 1) | PANIC ... | HANG
 //   The binary is run 10 times on the same files; `nondet` if the outputs are not all equal.
@@ -20,38 +25,86 @@ func init() {
 	gens["C15"] = genC15
 }
 
+type c15File struct{ path, content string }
+
+// c15DecodeTraining reads the training field: the files to write (first = the -t argument) and whether it is a tree
+func c15DecodeTraining(field string) ([]c15File, bool, bool) {
+	if !strings.HasPrefix(field, "tree:") {
+		b, err := hex.DecodeString(field)
+		return []c15File{{"training.knut", string(b)}}, false, err == nil
+	}
+	var fs []c15File
+	for _, e := range strings.Split(field[len("tree:"):], ",") {
+		kv := strings.SplitN(e, "=", 2)
+		if len(kv) != 2 {
+			return nil, true, false
+		}
+		p, e1 := hex.DecodeString(kv[0])
+		c, e2 := hex.DecodeString(kv[1])
+		if e1 != nil || e2 != nil || len(p) == 0 {
+			return nil, true, false
+		}
+		fs = append(fs, c15File{string(p), string(c)})
+	}
+	return fs, true, len(fs) > 0
+}
+
+func c15EncodeTree(fs []c15File) string {
+	var parts []string
+	for _, f := range fs {
+		parts = append(parts, hex.EncodeToString([]byte(f.path))+"="+hex.EncodeToString([]byte(f.content)))
+	}
+	return "tree:" + strings.Join(parts, ",")
+}
+
 func obsC15Infer(in string) string {
 	f := strings.Split(in, " ")
 	if len(f) != 4 {
 		return "BADINPUT"
 	}
 	ph, e1 := hex.DecodeString(f[1])
-	train, e2 := hex.DecodeString(f[2])
+	files, tree, ok := c15DecodeTraining(f[2])
 	target, e3 := hex.DecodeString(f[3])
-	if e1 != nil || e2 != nil || e3 != nil {
+	if e1 != nil || !ok || e3 != nil {
 		return "BADINPUT"
 	}
 	var out string
 	withTempDir(func(dir string) {
-		tr := writeFile(dir, "training.knut", string(train))
+		tr := ""
+		for i, tf := range files {
+			p := tf.path
+			if tree {
+				p = "tr/" + p
+			}
+			w := writeFile(dir, p, tf.content)
+			if i == 0 {
+				tr = w
+			}
+		}
 		tg := writeFile(dir, "target.knut", string(target))
 		args := []string{"infer", "-a", string(ph), "-t", tr, tg}
-		r := runKnut(knutBin(), dir, nil, 20*time.Second, args...)
+		env := func(i int) []string {
+			if !tree || i == 0 {
+				return nil
+			}
+			return []string{fmt.Sprintf("KNUT_VERIF_SCHED=%d", 7919*i+len(in)), fmt.Sprintf("GOMAXPROCS=%d", []int{1, 2, 16}[i%3])}
+		}
+		r := runKnut(knutBin(), dir, env(0), 20*time.Second, args...)
 		switch c := r.class(); c {
 		case "OK":
 			det := "det"
-			for i := 0; i < 9; i++ {
-				r2 := runKnut(knutBin(), dir, nil, 20*time.Second, args...)
+			for i := 1; i < 10; i++ {
+				r2 := runKnut(knutBin(), dir, env(i), 20*time.Second, args...)
 				if r2.class() != "OK" || r2.Stdout != r.Stdout {
 					det = "nondet"
 					break
 				}
 			}
-			tree := "REPARSE-ERR"
+			parsed := "REPARSE-ERR"
 			if f2, err := c08Parse(r.Stdout); err == nil {
-				tree = c08Tree(f2)
+				parsed = c08Tree(f2)
 			}
-			out = "OK " + hex.EncodeToString([]byte(r.Stdout)) + " ; " + tree + " ; " + det
+			out = "OK " + hex.EncodeToString([]byte(r.Stdout)) + " ; " + parsed + " ; " + det
 		case "ERR":
 			out = "ERR " + hex.EncodeToString([]byte(r.Stdout))
 		case "PANIC":
@@ -141,18 +194,24 @@ func (g *c15gen) filler() string {
 	}
 }
 
-func (g *c15gen) training() string {
+// training: the training journal in one file (also used by c18.go)
+func (g *c15gen) training() string { return strings.Join(g.trainingChunks(), "") }
+
+// trainingChunks returns the training journal as a list of chunks (a chunk = optional filler + one transaction +
+// blank line); the one-file training journal is their concatenation
+func (g *c15gen) trainingChunks() []string {
 	switch k := g.r.intn(100); {
 	case k < 7:
-		return ""
+		return nil
 	case k < 14:
-		return "* nothing to learn from\n" + g.date() + " open " + pick(g.r, g.pool) + "\n"
+		return []string{"* nothing to learn from\n" + g.date() + " open " + pick(g.r, g.pool) + "\n"}
 	case k < 17:
-		return "2020-01-01 \"broken\n" // does not parse
+		return []string{"2020-01-01 \"broken\n"} // does not parse
 	}
-	var sb strings.Builder
+	var chunks []string
 	n := g.r.rangeInt(1, 6)
 	for i := 0; i < n; i++ {
+		var sb strings.Builder
 		sb.WriteString(g.filler())
 		nb := 1
 		if g.r.chance(25) {
@@ -173,8 +232,99 @@ func (g *c15gen) training() string {
 		}
 		sb.WriteString(g.trx(sides))
 		sb.WriteString("\n")
+		chunks = append(chunks, sb.String())
 	}
-	return sb.String()
+	return chunks
+}
+
+// spread distributes the chunks over an include tree (genLayout of c05.go: 1-4 files in ".", "sub", "sub/deep",
+// "other"; names that are tails of each other; include paths with detours through ".."), the include directive of a
+// child at a random position among the chunks of its parent.  Variations: a file included a second time from another
+// file (its transactions are then trained twice: the loader visits per include, C05_layout), an include of a file
+// that does not exist, an include that closes a cycle (both: exit 1, nothing printed).
+func (g *c15gen) spread(chunks []string) []c15File {
+	r := g.r
+	l := genLayout(r, len(chunks), 4)
+	nf := len(l.parent)
+	parts := make([][]string, nf)
+	for i, c := range chunks {
+		parts[l.fileOf[i]] = append(parts[l.fileOf[i]], c)
+	}
+	inc := func(from, to int) string {
+		s := "include \"" + relPath(l.dir[from], l.dir[to], l.names[to], r) + "\"\n"
+		if r.chance(60) {
+			s += "\n"
+		}
+		return s
+	}
+	insert := func(f int, line string) {
+		k := r.intn(len(parts[f]) + 1)
+		parts[f] = append(parts[f][:k], append([]string{line}, parts[f][k:]...)...)
+	}
+	for f := 1; f < nf; f++ {
+		insert(l.parent[f], inc(l.parent[f], f))
+	}
+	switch k := r.intn(100); {
+	case k < 12 && nf >= 3:
+		// a second include of file f from a file that is not below f (files below f have larger indices)
+		f := r.rangeInt(2, nf-1)
+		from := r.intn(f)
+		insert(from, inc(from, f))
+	case k < 18:
+		insert(r.intn(nf), "include \"nosuch.knut\"\n\n")
+	case k < 26 && nf >= 2:
+		// a cycle: file f includes one of its ancestors
+		f := r.rangeInt(1, nf-1)
+		a := l.parent[f]
+		for a != 0 && r.chance(50) {
+			a = l.parent[a]
+		}
+		insert(f, inc(f, a))
+	}
+	var fs []c15File
+	for f := 0; f < nf; f++ {
+		fs = append(fs, c15File{l.dir[f] + "/" + l.names[f], strings.Join(parts[f], "")})
+	}
+	return fs
+}
+
+// tieDiamond: a training tree in which one file is reached over two include paths, and a target whose placeholder is
+// decided by that: accounts a < b (bytewise) are trained with the same description, amount and counter-account, a
+// once, b in the shared file.  The loader visits a file once per include (C05_layout), so b is trained twice and wins;
+// if the shared file were trained once, the scores would be equal and a would win (seeded change C06c-load-once-set;
+// a random tree almost never decides a choice this way).
+func (g *c15gen) tieDiamond() ([]c15File, string) {
+	r := g.r
+	accs := append([]string(nil), c15Accounts...)
+	r.shuffle(len(accs), func(i, j int) { accs[i], accs[j] = accs[j], accs[i] })
+	a, b, c := accs[0], accs[1], accs[2]
+	if a > b {
+		a, b = b, a
+	}
+	desc, qty, com, date := pick(r, c15Words), pick(r, []string{"1", "10", "50", "1200.00"}), pick(r, c15Commodities), g.date()
+	side := r.intn(2)
+	trx := func(x string) string {
+		if side == 0 {
+			return fmt.Sprintf("%s \"%s\"\n%s %s %s %s\n\n", date, desc, x, c, qty, com)
+		}
+		return fmt.Sprintf("%s \"%s\"\n%s %s %s %s\n\n", date, desc, c, x, qty, com)
+	}
+	var fs []c15File
+	switch r.intn(3) {
+	case 0: // the root includes the shared file twice
+		fs = []c15File{{"root.knut", "include \"sub/s.knut\"\n\n" + trx(a) + "include \"./sub/../sub/s.knut\"\n"}, {"sub/s.knut", trx(b)}}
+	case 1: // over two intermediate files
+		fs = []c15File{{"root.knut", "include \"x.knut\"\ninclude \"other/y.knut\"\n\n" + trx(a)},
+			{"x.knut", "include \"sub/s.knut\"\n"}, {"other/y.knut", g.filler() + "include \"../sub/s.knut\"\n"}, {"sub/s.knut", trx(b)}}
+	default: // directly and over an intermediate file
+		fs = []c15File{{"root.knut", trx(a) + "include \"sub/x.knut\"\ninclude \"sub/s.knut\"\n"},
+			{"sub/x.knut", "include \"s.knut\"\n"}, {"sub/s.knut", g.filler() + trx(b)}}
+	}
+	target := trx(g.ph)
+	if r.chance(50) {
+		target = g.filler() + target + trx(g.ph)
+	}
+	return fs, target
 }
 
 func (g *c15gen) target() string {
@@ -228,12 +378,19 @@ func genC15(out *caseWriter, seed uint64, n int, args []string) error {
 			perm[j], perm[m] = perm[m], perm[j]
 		}
 		g.pool = perm[:k]
-		train := g.training()
+		chunks := g.trainingChunks()
 		target := g.target()
+		train := hex.EncodeToString([]byte(strings.Join(chunks, "")))
 		if r.chance(6) {
-			train = target // training file and target file may be the same
+			train = hex.EncodeToString([]byte(target)) // training file and target file may be the same
+		} else if r.chance(8) {
+			var fs []c15File
+			fs, target = g.tieDiamond()
+			train = c15EncodeTree(fs)
+		} else if r.chance(50) {
+			train = c15EncodeTree(g.spread(chunks)) // the training journal over an include tree
 		}
-		in := fmt.Sprintf("%s %s %s %s", variant, hex.EncodeToString([]byte(g.ph)), hex.EncodeToString([]byte(train)), hex.EncodeToString([]byte(target)))
+		in := fmt.Sprintf("%s %s %s %s", variant, hex.EncodeToString([]byte(g.ph)), train, hex.EncodeToString([]byte(target)))
 		out.add(fmt.Sprintf("C15-%d-%d", seed, i), "C15.infer", in)
 	}
 	return nil
